@@ -27,13 +27,16 @@ else:
                'From Coq Require Import ZArith List Bool Permutation.\nFrom CiwV Require Import Sx Prelude.\n'
                'From CiwV.Engine Require Import State Engine Codec.\nFrom CiwV.Inv Require %s.\nImport ListNotations.\nOpen Scope Z_scope.\n' % (pid, mod, mod))
 body = []
-for name, ty in items:
-    ch = 'Theorem %s :\n  %s.\nProof. exact %s.%s. Qed.\nPrint Assumptions %s.' % (name, ty, mod, name, name)
+taken = set(re.findall(r'^Theorem (\w+)', hdr, flags=re.M))
+for name0, ty in items:
+    name = name0 if name0 not in taken else '%s_%s' % (name0, mod.lower())      # a statement of the same short name from an earlier file
+    taken.add(name)
+    ch = 'Theorem %s :\n  %s.\nProof. exact %s.%s. Qed.\nPrint Assumptions %s.' % (name, ty, mod, name0, name)
     open(os.path.join(COQ, 'Properties', '_t.v'), 'w').write(hdr + '\n'.join(body) + '\n' + ch + '\n')
     r = subprocess.run('timeout 900 coqc %s Properties/_t.v' % Q, shell=True, cwd=COQ, capture_output=True, text=True)
     if r.returncode != 0:
         ch = ('(* the printed form of this statement does not re-parse (nat / Z scopes): it is the statement of %s.%s, verbatim in coq/Inv/%s.v *)\n'
-              'Theorem %s : ltac:(let t := type of %s.%s in exact t).\nProof. exact %s.%s. Qed.\nPrint Assumptions %s.' % (mod, name, mod, name, mod, name, mod, name, name))
+              'Theorem %s : ltac:(let t := type of %s.%s in exact t).\nProof. exact %s.%s. Qed.\nPrint Assumptions %s.' % (mod, name0, mod, name, mod, name0, mod, name0, name))
         print('fallback', name)
     body.append(ch + '\n')
 open(path, 'w').write(hdr + '\n' + '\n'.join(body))
